@@ -24,7 +24,7 @@ ANCHORS = ["decaylanguage.dec.dec:DecFileParser.parse", "decaylanguage.dec.dec:D
            "decaylanguage.dec.dec:DecayModelParamValueReplacement._replacement"]
 WORKERS = {"quick": 4, "thorough": 16}
 WTESTS = {"groups": ['parse'], "tests": ['tests/dec', 'tests/decay/test_viewer.py']}
-REQUIRED = {**{f"char:{c}": 10 for c in L.ALPHABET_EXTRA}, **{f"bf-literal:{f}": 3 for f in ["1", "1.", ".25", "-0.8", "2E-3", "20.e-2", "+0.125"]},
+REQUIRED = {"alias-with-its-own-block-next-to-the-block-of-its-particle": 5, **{f"char:{c}": 10 for c in L.ALPHABET_EXTRA}, **{f"bf-literal:{f}": 3 for f in ["1", "1.", ".25", "-0.8", "2E-3", "20.e-2", "+0.125"]},
             **{f"param-literal:{f}": 3 for f in ["1", "1.", ".5", "-0.8", "+3", "20.e12", "2E-4"]},
             "word-param-that-python-float-would-read": 10, "line-with-model-alias+photos": 5, "line-with-model-alias": 10, "label-continuing-a-model-name": 10, "copydecay-onto-a-name-with-its-own-block": 5, "file-constructor-two-files-first-without-final-newline": 10, "returned-values-edited-then-asked-again": 20, "models-all-published": 1, "empty-block": 10, "repeated-mother-different-body": 10, "repeated-mother-identical-body": 10,
             "tables>=4": 10, "tables>=8": 3, "line-without-daughters": 10, "photos-mixed-in-one-table": 10, "lines>=8": 3, "daughters>=5": 10,
@@ -34,6 +34,7 @@ ASSUMPTIONS = ["texts are in L_dec (DESIGN 2.1): labels are not numeric prefixes
 EXHAUSTIVE_NOTE = "every published model name appears in at least one generated decay line per run (cycled, not sampled)"
 
 _models_seen: set = set()
+_flags: list = []
 
 
 def gen_file(ctx):
@@ -85,6 +86,20 @@ def gen_file(ctx):
         if not c.startswith("ChargeConj(") and c != src and all(b["m"] != c for b in blocks) and L.label_ok(c, g.models) \
                 and not any(st["k"] == "CDecay" and st["name"] == c for st in misc):      # (one CDecay per derived name: a second one is outside every property)
             misc.append({"k": "CDecay", "name": c})
+    if r.random() < 0.25:
+        # an alias of a particle that has its own block, with a block of its own (the signal-decay idiom): two tables, each under its own name --
+        # also when the particle's table is asked for by PDG name
+        from .. import names as _names  # noqa: PLC0415
+
+        e2p = _names.tables()["evt2pdg"]
+        real = [b["m"] for b in blocks if e2p.get(b["m"])]
+        if real:
+            tgt = r.choice(real)
+            al = "My" + r.choice(["Sig", "Tag", "Sig2", "_"]) + "".join(ch for ch in tgt if ch.isalnum())
+            if L.label_ok(al, g.models) and all(b["m"] != al for b in blocks):
+                misc.append({"k": "Alias", "a": al, "b": tgt})
+                blocks.insert(r.randint(0, len(blocks)), g.decay(al, defs=defs))
+                _flags.append("alias-with-its-own-block-next-to-the-block-of-its-particle")
     late_defs = [g.misc("Define") for _ in range(r.choice([0, 0, 1]))]
     stmts = decgen.interleave(r, stmts + late_defs, blocks, misc)
     if r.random() < 0.2:
@@ -93,6 +108,8 @@ def gen_file(ctx):
 
 
 def classify(ctx, stmts):
+    while _flags:
+        ctx.hit(_flags.pop())
     seen = {}
     ntab = 0
     aliases_defined = {st["name"] for st in stmts if st["k"] == "ModelAlias"}
